@@ -212,6 +212,14 @@ def plan_C12(c):
 
 
 def plan_C13(c):
+    # every exponent field of both widths x fraction classes x sign, enumerated by TLC
+    calls = []
+    for w, sg, bexp, fc in grid(c, 'floats'):
+        fb = 52 if w == 64 else 23
+        full = (1 << fb) - 1
+        frac = [0, 1, full, full // 3, 1 << (fb - 1), (1 << (fb - 1)) + 1, full - 1, 0x2AAAA][fc] & full
+        calls.append({'ev': 'fromfloat', 't': 1, 'w': w, 'sign': sg, 'bexp': bexp, 'frac': jnum(frac)['m']})
+    run_vectors(c, calls, 'floats')
     v(c, 'c13', 3000, 100000)
 
 
